@@ -193,8 +193,9 @@ PROPS = {
                     "differential result: it rests on the critical-section predicates (each call is one locked region) and the real-socket "
                     "oracle c01-real-stream; the real tier compares no model field. accepted = reported is proved for well-formed sendfile(2) "
                     "answers only (OpsWF); c01_reported_needs_wf shows the divergence otherwise. After a fatal Sendfile the wire may hold a "
-                    "prefix of the failing call's range although the call reported 0 (c01_error_sendfile; harness: tolerate); there is no "
-                    "theorem 'wire is a prefix of reported ++ prefix of the failing call'. Transport differences are covered by sampling (typ=, "
+                    "prefix of the failing call's range although the call reported 0 (harness: tolerate): c01_wire_prefix_of_reported proves, "
+                    "open or closed, wire <+: reported ++ p with p empty unless one Sendfile of the run failed after transmitting the prefix p "
+                    "of its range. Transport differences are covered by sampling (typ=, "
                     "which the model ignores) and the oracle-only real tier",
             "technique": _TECH},
         "lean": ["NbioVerif.Properties.C01", "NbioVerif.Properties.ConnTimer", "NbioVerif.Properties.ConnClose", srcgen.BRIDGE_CONN], "drivers": ["conndrv"], "harness": ["hconn"],
